@@ -40,10 +40,22 @@ def collect_apps(formulas):
 
 
 def uses_pi(formulas):
-    for f in formulas:
-        for c in sigma.free_consts(f):
-            if c.eq(PI.t):
-                return True
+    """does the constant pi occur? (one traversal with a visited set shared by all formulas)"""
+    pid = PI.t.get_id()
+    seen = set()
+    stack = list(formulas)
+    while stack:
+        e = stack.pop()
+        i = e.get_id()
+        if i in seen:
+            continue
+        seen.add(i)
+        if i == pid:
+            return True
+        if z3.is_quantifier(e):
+            stack.append(e.body())
+        elif z3.is_app(e) and e.num_args():
+            stack.extend(e.children())
     return False
 
 
@@ -198,7 +210,7 @@ def instances(formulas, opts=None):
         if opts.get("unfold_first", False):
             first = sd.fn(z3.simplify(lo + 1), hi, *args)
             out.append(z3.Implies(hi > lo, e == sd.body_at(lo, args) + first))
-    if opts.get("ext", True) and len(sig_apps) <= 40:
+    if opts.get("ext", True) and len(sig_apps) <= opts.get("ext_limit", 40):
         for (sd1, e1), (sd2, e2) in itertools.combinations(sig_apps, 2):
             if e1.sort() != e2.sort():
                 continue
